@@ -90,7 +90,23 @@ func runC16(t *c16Task) *c16Result {
 
 // c16Filter returns the Options mutation for a named filter setting; opens counts the opens
 // of the current world (0 = first open).
+// c16Alts keeps ONE AltFilters slice per setting for the whole life of a world: an application
+// passes the same Options value (hence the same slice) to every Open, and the library must not
+// have changed it in between.
+var c16Alts = map[string][]filter.Filter{}
+
 func c16Filter(name string, opens int, o *opt.Options) {
+	defer func() {
+		if len(o.AltFilters) == 0 {
+			return
+		}
+		key := fmt.Sprintf("%s/%d", name, len(o.AltFilters))
+		if opens <= 1 || c16Alts[key] == nil {
+			c16Alts[key] = o.AltFilters // first Open that uses alternatives: remember the slice
+		} else {
+			o.AltFilters = c16Alts[key] // later Opens: the very same slice again
+		}
+	}()
 	b := func(n int) filter.Filter { return filter.NewBloomFilter(n) }
 	switch name {
 	case "none":
